@@ -34,13 +34,14 @@ def framing : List Bytes :=
   [[67,111,110,116,101,110,116,45,76,101,110,103,116,104], [84,114,97,110,115,102,101,114,45,69,110,99,111,100,105,110,103]]
 
 /-- a standard-library stage: keeps method, target, Host and body; keeps the values of every
-    field that is neither hop-by-hop nor framing; adds fields only where there were none -/
+    field that is neither hop-by-hop (by name or by a `Connection` option of the request) nor framing; adds fields only where there were none -/
 structure StdReqSpec (stage : ReqM → ReqM) : Prop where
   method : ∀ q, (stage q).method = q.method
   target : ∀ q, (stage q).target = q.target
   host : ∀ q, (stage q).host = q.host
   body : ∀ q, (stage q).body = q.body
   keeps : ∀ q k, Hdr.values q.hdr k ≠ [] → server_isHopByHopHeader k = false → k ∉ framing →
+      k ∉ Hdr.connDrops q.hdr →          -- a field named by a `Connection` option is hop-by-hop for this request
       Hdr.values (stage q).hdr k = Hdr.values q.hdr k
   drops_hop : ∀ q k, Hdr.values q.hdr k = [] → server_isHopByHopHeader k = true → Hdr.values (stage q).hdr k = []
   wf : ∀ q, RespPath.WF q.hdr → RespPath.WF (stage q).hdr
